@@ -114,6 +114,7 @@ class Context(object):
         self.kind_cache = {}
         self.pending = {}            # shadow scheduler: handler -> Time
         self.G = self.G_prev = self.initial_G = None   # global-state snapshots (after / before the last commit)
+        self.S = None
         self.out_records = []
         self.setting = None
         self.notes = {}
@@ -156,6 +157,7 @@ class Core(Monitor):
         self.writes = 0
         self.write_sha = hashlib.sha256()
         self.write_log = []
+        self.faults = [dict(f) for f in ctx.scenario.get("faults", [])]
 
     def on_activator_built(self, activator, args, kwargs, info):
         self.ctx.activator_object = activator
@@ -177,12 +179,26 @@ class Core(Monitor):
         ctx.G = snapshot_state(cnodes)
         ctx.G_prev = ctx.G
         ctx.initial_G = ctx.G
+        ctx.S = dict(ctx.G)      # shadow built from the initial state and the committed out-states only
         ctx.charges = {tuple(u.identifier): (dict(u.charge) if u.charge is not None else None)
                        for u in walk_units(cnodes)}
         ctx.children = {tuple(c.value.identifier): [tuple(k.value.identifier) for k in c.children]
                         for c in walk_cnodes(cnodes)}
         ctx.weights = {tuple(c.value.identifier): c.weight for c in walk_cnodes(cnodes)}
         ctx.roots = [tuple(c.value.identifier) for c in cnodes]
+
+    def on_to_run(self, activator, active_state, preceding, result):
+        # fault injection between two legs: pickle round trip of a collaborator (what a dump / resume does to it)
+        ctx = self.ctx
+        for fault in self.faults:
+            if fault["at_step"] == ctx.step and not fault.get("done"):
+                fault["done"] = True
+                handlers = list(ctx.activator.get_event_handlers())
+                if fault["kind"] == "scheduler_pickle":
+                    ctx.scheduler = seams.pickle_round_trip("scheduler", handlers)
+                elif fault["kind"] == "state_handler_pickle":
+                    ctx.state_handler = seams.pickle_round_trip("state_handler", handlers)
+                ctx.probes["fault_" + fault["kind"]] += 1
 
     def on_push(self, scheduler, time, handler):
         self.ctx.pending[handler] = time
@@ -224,6 +240,9 @@ class Core(Monitor):
         self._last_kinds = (self._last_kinds + ((kind, changed),))[-4:]
         if len(self._last_kinds) == 4:
             self.grams.add(self._last_kinds)
+        if ctx.S is not None:
+            for r in records:
+                ctx.S[r[0]] = r[1:]
         ctx.G_prev = ctx.G
         ctx.G_cnodes = state_handler.extract_global_state()
         ctx.G = snapshot_state(ctx.G_cnodes)
